@@ -157,9 +157,11 @@ impl InitHeader {
 
         let payload_len = u16::from_be_bytes(payload_len_bytes.try_into().unwrap()).into();
         let data = if payload_len > Self::MAX_PAYLOAD_SIZE {
-            data
+            // A packet never carries more than MAX_PAYLOAD_SIZE bytes, however long it is.
+            &data[..data.len().min(Self::MAX_PAYLOAD_SIZE)]
         } else {
-            &data[..payload_len]
+            // The packet may be shorter than the payload it announces.
+            data.get(..payload_len).ok_or(())?
         };
         Ok((
             Self {
@@ -311,6 +313,8 @@ enum ExtensionError {
     OutOfSequence,
     /// Packet is not of the same channel ID as the current message
     WrongChannel,
+    /// Packet is shorter than the rest of the payload it has to carry
+    TruncatedPacket,
 }
 
 /// Error occuring when trying to create a new message to send to a client
@@ -423,13 +427,19 @@ impl Message {
         }
 
         if header.seq == self.sequence {
-            self.sequence += 1;
-            let remaining_bytes = self.payload_len - self.payload.len();
+            let remaining_bytes = self.payload_len.saturating_sub(self.payload.len());
             const MAX_CONT_PACKET_LEN: usize = MAX_PACKET_SIZE - ContHeader::HEADER_SIZE;
             if remaining_bytes <= MAX_CONT_PACKET_LEN {
-                self.payload.extend_from_slice(&data[..remaining_bytes]);
+                let data = data
+                    .get(..remaining_bytes)
+                    .ok_or(ExtensionError::TruncatedPacket)?;
+                self.sequence += 1;
+                self.payload.extend_from_slice(data);
                 Ok(true)
             } else {
+                // An over-long packet must not push the payload past its announced length.
+                let data = &data[..data.len().min(MAX_CONT_PACKET_LEN)];
+                self.sequence += 1;
                 self.payload.extend_from_slice(data);
                 Ok(false)
             }
